@@ -25,6 +25,9 @@ const SCRIPTS: &[(&str, &str, &str)] = &[
     ("thread", "VAR v_@ = 0\n", "=== k@ ===\nMain @.\n<- k@_th(3)\n* main choice @\n    Main chosen @ {v_@}.\n    -> DONE\n=== k@_th(p) ===\nThread @ {p}.\n* thread choice @\n    ~ v_@ = v_@ + p\n    Thread chosen @ {v_@}.\n    -> DONE\n"),
     ("func", "VAR v_@ = 0\n", "=== k@ ===\nLine @ {f@_val(2)} <>\nglued @.\n~ f@_txt()\nSeq @ {one|two|three}.\n* pick @ [{f@_val(1)}]\n    Picked @ {v_@}.\n- Done @.\n-> DONE\n=== function f@_val(n) ===\n~ v_@ = v_@ + n\n~ return v_@\n=== function f@_txt() ===\nText one @.\nText two @ {v_@}.\n"),
     ("loop", "VAR v_@ = 0\n", "=== k@ ===\n~ v_@ = v_@ + 1\nLoop @ {v_@} {k@}.\n+ {v_@ < 3} more @ -> k@\n* once @\n    Once @.\n    -> k@\n* -> \n    Fallback @.\n    -> DONE\n"),
+    // an operand waits on the evaluation stack while a function prints lines (the flow can be left
+    // and re-entered between them); a knot entered by a host jump takes its parameter from there too
+    ("operand", "VAR s_@ = \"\"\n", "=== k@ ===\nBefore @.\n~ s_@ = \"@\" + f@_lines() + \"@\"\nSum @ {s_@}.\n* more @\n    ~ s_@ = \"[@\" + f@_lines() + \"@]\"\n    Again @ {s_@}.\n- -> DONE\n=== function f@_lines() ===\nOne @.\nTwo @.\n~ return \"-\"\n"),
     ("list", "LIST l_@ = (a@), b@, c@\nVAR v_@ = 0\n", "=== k@ ===\n~ l_@ += b@\nList @ {l_@}.\n* grow @\n    ~ l_@ += c@\n    ~ v_@ = LIST_COUNT(l_@)\n    Grown @ {l_@} {v_@}.\n* shrink @\n    ~ l_@ -= a@\n    Shrunk @ {l_@}.\n- Fin @ {LIST_MAX(l_@)}.\n-> DONE\n"),
 ];
 
